@@ -10,6 +10,8 @@ import CompmechVerif.Spec.Piston
 import CompmechVerif.Model.Piston
 import CompmechVerif.Core.OpSpecTactics
 import CompmechVerif.Spec.AeroMatrix
+import CompmechVerif.Model.BayAeroLemmas
+import CompmechVerif.Spec.BayAeroKernels
 import Mathlib.Tactic.FinCases
 import Mathlib.Data.Fintype.Basic
 import Mathlib.Tactic.Linarith
@@ -177,5 +179,622 @@ theorem coefficients_given (b : K) (g a mach : Option K) (rho v ainf r q : K) :
     coefs (some b) g a mach rho v ainf r q = .ok ⟨b, g.getD 0, a.getD 0⟩ := rfl
 
 end coefficients
+
+/-! ### `StiffPanelBay.calc_kA` and the aerodynamic part of `tstiff2d_1stiff_flutter` (`Model/BayAero.lean`) -/
+
+section bay
+open Compmech.PanelGlue Compmech.BayAero Compmech.Asm Compmech
+variable {F : Type} [Field F] [LinearOrder F] [IsStrictOrderedRing F]
+
+/-- **`StiffPanelBay.calc_kA` delegates**: whenever the bay call succeeds, the bay has at least one panel and had a `size` attribute
+`s` (an earlier `get_size()`), the skin panel used is `panels[0]` — as `Panel._rebuild` leaves it — of a flat or cylindrical model `k`,
+the flow direction is `x` or `y`, and the kernel calls and their combination are EXACTLY those of `Panel.calc_kA` (`PanelGlue.calcKA`)
+of that panel carrying THE BAY'S flow data (`skinOf`: `flow, beta, gamma, aeromu, Mach` — with `Mach == 1` already patched —,
+`rho_air, speed_sound, size, V, r` copied in this order), called with `(size = bay size, row0 = 0, col0 = 0, finalize = True)`: that is
+`kaDispatch` on the state the panel is left in, with the coefficients `cf` of `Model/Piston.lean` AT THE BAY'S DATA.  Explicitly:
+every call is made on the analytic module with `panel.r = bay.r` (`None` read as `0.`) and is placed at `(bay size, 0, 0)`, where the
+bay size is `dofs·bay.m·bay.n` plus the sizes of the stiffener parts; flow along `y`: `fkAy(beta, panel, …)`, completed
+skew-symmetrically; flow along `x` with `gamma ≠ 0`: `fkAx(beta, 0, …)` completed skew-symmetrically PLUS `fkAx(0, gamma, …)`
+completed symmetrically (`skew(c0) + fin(c1)`); with `gamma = 0`: `fkAx(beta, gamma, …)` completed skew-symmetrically.  The object the
+kernels are handed is `panels[0]`: they read ITS `a, b, m, n` and `w` flags (`Spec/BayAeroKernels.aeroKern`), not the bay's. -/
+theorem bay_calc_kA_delegates (B : AeroBay F) (q : F) (R : Result F) (h : (bayCalcKA B q).res = .ok R) :
+    ∃ (p0 : Panel F) (t : List (Panel F)) (s : Nat) (k : ModelKind) (cf : Piston.Coefs F),
+      B.panels = p0 :: t ∧ B.sizeAttr = some s ∧ (rebuild p0).1.model = .kind k ∧ k ≠ .kpanel ∧ (B.flow = .x ∨ B.flow = .y) ∧
+      (B.model ≠ .unset → B.model = .kind k) ∧
+      Piston.coefs B.beta B.gamma B.aeromu B.mach (zeroIfNone B.rhoAir) (zeroIfNone B.V) (zeroIfNone B.speedSound) (zeroIfNone B.r) q
+        = .ok cf ∧
+      (calcKA (skinOf (machPatchedBay (rebuiltBay B)) s (rebuild p0).1) (delegationArgs (baySize k B)) q).res = .ok R ∧
+      kaDispatch (calcKA (skinOf (machPatchedBay (rebuiltBay B)) s (rebuild p0).1) (delegationArgs (baySize k B)) q).post
+        (delegationArgs (baySize k B)) (baySize k B) cf = .ok R ∧
+      (∀ g ∈ R.calls, g.num = false ∧ g.r = some (zeroIfNone B.r) ∧ g.placement = [.nat (baySize k B), .nat 0, .nat 0]) ∧
+      (B.flow = .y → sig R = [(.fkAy, [.q cf.beta, .panel, .nat (baySize k B), .nat 0, .nat 0])] ∧ R.comb = .skew (.call 0)) ∧
+      (B.flow = .x →
+        (cf.gamma ≠ 0 →
+          sig R = [(.fkAx, [.q cf.beta, .q 0, .panel, .nat (baySize k B), .nat 0, .nat 0]),
+                   (.fkAx, [.q 0, .q cf.gamma, .panel, .nat (baySize k B), .nat 0, .nat 0])] ∧
+          R.comb = .add (.skew (.call 0)) (.fin (.call 1))) ∧
+        (cf.gamma = 0 →
+          sig R = [(.fkAx, [.q cf.beta, .q cf.gamma, .panel, .nat (baySize k B), .nat 0, .nat 0])] ∧ R.comb = .skew (.call 0))) := by
+  obtain ⟨B2, own, p, rest, s, k, hr, hres, _, _, _⟩ := bayCalcKA_ok h
+  obtain ⟨hB2, ⟨p0, t, hp0, hp⟩, hpm, _, hbm, hsz, hm, hn, hps, hrr, hfl, _⟩ := hr.facts
+  obtain ⟨hc1, hc2⟩ := hr.coefs
+  have hsize : baySize k B2 = baySize k B := by unfold baySize; rw [hm, hn, hps]
+  rw [hsize] at hres
+  subst hB2
+  subst hp
+  have hskm : (skinOf (machPatchedBay (rebuiltBay B)) s (rebuild p0).1).model = .kind k := hpm
+  have hskf : (skinOf (machPatchedBay (rebuiltBay B)) s (rebuild p0).1).flow = B.flow := hfl
+  have hskr : (skinOf (machPatchedBay (rebuiltBay B)) s (rebuild p0).1).r = B.r := hrr
+  obtain ⟨k', cf, hk', hcon, hcf, hflow, hcalls, hy, hx⟩ := calcKA_ok hres
+  have hkk : k' = k := by rw [hskm] at hk'; injection hk' with hk'; exact hk'.symm
+  subst hkk
+  have hcfo : cf = own := by rw [hc2] at hcf; injection hcf with hcf; exact hcf.symm
+  subst hcfo
+  have hplace : placeSpec k' (skinOf (machPatchedBay (rebuiltBay B)) s (rebuild p0).1) (delegationArgs (baySize k' B))
+      = [.nat (baySize k' B), .nat 0, .nat 0] := rfl
+  rw [hskf] at hflow hy hx
+  rw [hplace] at hy hx
+  obtain ⟨hd1, _⟩ := calcKA_eq_dispatch (A := delegationArgs (baySize k' B)) hskm hcon hc2
+  refine ⟨p0, t, s, k', cf, hp0, hsz, hpm, ?_, ?_, hbm, hc1, hres, ?_, ?_, ?_, ?_⟩
+  · rintro rfl; simp [ModelKind.conical] at hcon
+  · cases hf : B.flow <;> simp_all
+  · have hd1' : (calcKA (skinOf (machPatchedBay (rebuiltBay B)) s (rebuild p0).1) (delegationArgs (baySize k' B)) q).res =
+        kaDispatch (calcKA (skinOf (machPatchedBay (rebuiltBay B)) s (rebuild p0).1) (delegationArgs (baySize k' B)) q).post
+          (delegationArgs (baySize k' B)) (baySize k' B) cf := hd1
+    rw [← hd1']; exact hres
+  · intro g hg
+    obtain ⟨a1, a2, _, a4⟩ := hcalls g hg
+    exact ⟨a1, by rw [a2, hskr], by rw [a4, hplace]⟩
+  · intro hf
+    obtain ⟨a1, a2⟩ := hy hf
+    exact ⟨a1, by rw [a2]; rfl⟩
+  · intro hf
+    refine ⟨fun hg => (hx hf).1 ⟨rfl, hg⟩, fun hg => ?_⟩
+    obtain ⟨a1, a2⟩ := (hx hf).2 (by simp [hg])
+    exact ⟨a1, by rw [a2]; rfl⟩
+
+/-- non-vacuity (`exBay` of Model/BayAeroLemmas.lean): a cylindrical bay (`r = 3`, model left to the panels) with `m = 2, n = 3`, one skin panel and a stiffener flange of 8
+amplitudes, Mach route with `Mach = 5/4` (so `q = 3/4`), flow along `x`: the call succeeds with the two `fkAx` calls at `(26, 0, 0)`
+(`26 = 3·2·3 + 8`), `beta = 4·9/(3/4) = 48`, `gamma = 48/(2·3·3/4) = 32/3`, combined as `skew(c0) + fin(c1)` -/
+example : ∃ R, (bayCalcKA exBay (3 / 4)).res = .ok R ∧
+    sig R = [(.fkAx, [.q 48, .q 0, .panel, .nat 26, .nat 0, .nat 0]), (.fkAx, [.q 0, .q (32 / 3), .panel, .nat 26, .nat 0, .nat 0])] ∧
+    R.comb = .add (.skew (.call 0)) (.fin (.call 1)) := by
+  simp [bayCalcKA, exBay, rebuildPanels, rebuild, exPanel, afterRebuild, rebuiltBay, ownFormulas, Piston.fromMach, Piston.effMach,
+    delegate, autoModel, ModelAttr.kind?, calcKA, ModelKind.conical, resolveSize, defaultR, Piston.coefs, machPatched, kaDispatch,
+    copyFirst, copyRest, delegationArgs, baySize, ModelKind.dofs, sig, mkCall, placement]
+  norm_num
+
+/-- **the bay matrix vanishes on every stiffener amplitude** (corollary of `bay_calc_kA_delegates`): if the kernel of every recorded
+call writes inside the skin panel's own `dofs·m·n` rows and columns — which the regenerated aerodynamic kernels do for the placement
+`(0, 0)` the bay uses (`Spec/BayAeroKernels.aeroKern_within`; instantiated in `bay_calc_kA_zero_on_stiffeners_regenerated`) — then every
+entry of the matrix `StiffPanelBay.calc_kA()` returns whose row or column index is at least the skin size is zero. -/
+theorem bay_calc_kA_zero_on_stiffeners (B : AeroBay F) (q : F) (R : Result F) (kern : KCall F → Coo F) (n0 : Nat)
+    (h : (bayCalcKA B q).res = .ok R) (hk : ∀ g ∈ R.calls, Within n0 n0 (kern g)) (i j : Nat) (hij : n0 ≤ i ∨ n0 ≤ j) :
+    toFun (R.eval kern) i j = 0 := by
+  obtain ⟨p0, t, s, k, cf, _, _, _, _, hfl, _, _, _, _, _, hy, hx⟩ := bay_calc_kA_delegates B q R h
+  have one : ∀ {x}, sig R = [x] → R.comb = .skew (.call 0) → toFun (R.eval kern) i j = 0 := by
+    intro x h1 h2
+    obtain ⟨g, hg, _, _⟩ := calls_of_sig_one h1
+    unfold Result.eval
+    rw [h2, hg]
+    simp only [Comb.eval, List.getElem?_cons_zero]
+    exact toFun_skewComplete_zero (hk g (by rw [hg]; simp)) i j hij
+  rcases hfl with hf | hf
+  · by_cases hg : cf.gamma = 0
+    · obtain ⟨h1, h2⟩ := (hx hf).2 hg
+      exact one h1 h2
+    · obtain ⟨h1, h2⟩ := (hx hf).1 hg
+      obtain ⟨g1, g2, hgs, _⟩ := calls_of_sig_two h1
+      unfold Result.eval
+      rw [h2, hgs]
+      simp only [Comb.eval, List.getElem?_cons_zero, List.getElem?_cons_succ, toFun_append]
+      rw [toFun_skewComplete_zero (hk g1 (by rw [hgs]; simp)) i j hij, toFun_finalize_zero (hk g2 (by rw [hgs]; simp)) i j hij]
+      simp
+  · obtain ⟨h1, h2⟩ := hy hf
+    exact one h1 h2
+
+/-- the same with the REGENERATED kernels (`aeroKern`: the loop nest over the translated `fkAx / fkAy` entries, run with the series
+orders `m, n` of the panel object it is handed): the matrix of a successful `StiffPanelBay.calc_kA()` is zero at every position whose
+row or column is at least `num·m·n` of `panels[0]` — i.e. on every amplitude of a stiffener flange or base. -/
+theorem bay_calc_kA_zero_on_stiffeners_regenerated {num : Nat} (T : AeroTable F num) (base : PCtx F) (I : Integrals F) (B : AeroBay F)
+    (q : F) (R : Result F) (m n : Nat) (h : (bayCalcKA B q).res = .ok R) (i j : Nat) (hij : num * m * n ≤ i ∨ num * m * n ≤ j) :
+    toFun (R.eval (aeroKern T base I m n)) i j = 0 := by
+  obtain ⟨p0, t, s, k, cf, _, _, _, _, _, _, _, _, _, hcalls, _, _⟩ := bay_calc_kA_delegates B q R h
+  refine bay_calc_kA_zero_on_stiffeners B q R _ _ h ?_ i j hij
+  intro g hg
+  exact aeroKern_within T base I m n g ⟨_, (hcalls g hg).2.2⟩
+
+/-- **the bay matrix IS the piston-theory form on the skin's `w` amplitudes** (cylindrical bay, flow along `x`, `gamma ≠ 0`; corollary of
+`bay_calc_kA_delegates` and `kAx_matrix_cpanel`): with the REGENERATED kernel `CPanel.fkAx` run on the panel object `panels[0]` (its own
+series orders `m, n`, geometry and flags: `base`, `I`), `w` restrained on the upstream and downstream edges, the matrix a successful
+`StiffPanelBay.calc_kA()` returns holds, at the positions of ANY two degrees of freedom of the skin — upper or lower triangle —, the
+bilinear form `β ∬ w_A ∂w_B/∂x − γ ∬ w_A w_B` of the stated pressure law with `(β, γ)` the coefficients `cf` of `Model/Piston.lean` at the
+BAY's flow data; and it is zero on every stiffener amplitude (`bay_calc_kA_zero_on_stiffeners_regenerated`). -/
+theorem bay_calc_kA_eq_piston_form_cpanel [CharZero F] (B : AeroBay F) (q : F) (R : Result F) (base : PCtx F) (I : Integrals F)
+    (hI : I.Comm) (ha : base.a ≠ 0) (hb : base.b ≠ 0)
+    (hparts : ∀ dom i k, I .x dom 1 .w i 0 .w k + I .x dom 0 .w i 1 .w k = 0)
+    (h : (bayCalcKA B q).res = .ok R) (hflow : B.flow = .x) (m n : Nat)
+    {i k j l : Nat} (hi : i < m) (hk : k < m) (hj : j < n) (hl : l < n) (α β : Fin 3) :
+    ∃ cf : Piston.Coefs F,
+      Piston.coefs B.beta B.gamma B.aeromu B.mach (zeroIfNone B.rhoAir) (zeroIfNone B.V) (zeroIfNone B.speedSound) (zeroIfNone B.r) q
+        = .ok cf ∧
+      (cf.gamma ≠ 0 →
+        toFun (R.eval (aeroKern cpanelAero base I m n)) (0 + 3 * (j * m + i) + α.val) (0 + 3 * (l * m + k) + β.val)
+          = pistonForm (ctxAt (withCoefs base cf.beta cf.gamma) I i k j l) .full .full (wDx (withCoefs base cf.beta cf.gamma)) cf.gamma
+              (fld3 α) (fld3 β)) := by
+  obtain ⟨p0, t, s, k', cf, _, _, _, _, _, _, hcf, _, _, _, _, hx⟩ := bay_calc_kA_delegates B q R h
+  refine ⟨cf, hcf, ?_⟩
+  intro hg
+  obtain ⟨h1, h2⟩ := (hx hflow).1 hg
+  obtain ⟨g1, g2, hgs, n1, a1, n2, a2⟩ := calls_of_sig_two h1
+  have hev : R.eval (aeroKern cpanelAero base I m n) =
+      aeroCoo 3 m n 0 (fun ro co (P : PCtx F) => CPanel.fkAx.entry ro co { P with gamma := 0 })
+        (fun ro co (P : PCtx F) => CPanel.fkAx.entry ro co { P with beta := 0 }) (withCoefs base cf.beta cf.gamma) I := by
+    unfold Result.eval
+    rw [h2, hgs]
+    simp only [Comb.eval, List.getElem?_cons_zero, List.getElem?_cons_succ]
+    unfold aeroKern
+    simp only [n1, a1, n2, a2]
+    rfl
+  rw [hev]
+  exact kAx_matrix_cpanel (withCoefs base cf.beta cf.gamma) I hI ha hb hparts m n 0 hi hk hj hl α β
+
+/-- non-vacuity: the hypotheses of `bay_calc_kA_eq_piston_form_cpanel` are jointly satisfiable — the witness bay `exBay` (success, flow
+along `x`, `gamma = 32/3 ≠ 0`) with unit geometry and the (degenerate) all-zero interpretation of the integrals -/
+example : ∃ cf : Piston.Coefs ℚ, cf.gamma ≠ 0 ∧ ∃ R, (bayCalcKA exBay (3 / 4)).res = .ok R ∧
+    toFun (R.eval (aeroKern cpanelAero (⟨1, 1, 3, 0, 1, fun _ _ => 0, 0, 0, 0, 0, 1, 1, 0, 0, 0, fun _ _ _ _ _ _ _ _ => 0⟩ : PCtx ℚ)
+        (fun _ _ _ _ _ _ _ _ => 0) 2 3)) (0 + 3 * (1 * 2 + 1) + 2) (0 + 3 * (0 * 2 + 0) + 2)
+      = pistonForm (ctxAt (withCoefs (⟨1, 1, 3, 0, 1, fun _ _ => 0, 0, 0, 0, 0, 1, 1, 0, 0, 0, fun _ _ _ _ _ _ _ _ => 0⟩ : PCtx ℚ)
+          cf.beta cf.gamma) (fun _ _ _ _ _ _ _ _ => 0) 1 0 1 0) .full .full
+          (wDx (withCoefs (⟨1, 1, 3, 0, 1, fun _ _ => 0, 0, 0, 0, 0, 1, 1, 0, 0, 0, fun _ _ _ _ _ _ _ _ => 0⟩ : PCtx ℚ) cf.beta cf.gamma))
+          cf.gamma (fld3 2) (fld3 2) := by
+  have hok : ∃ R, (bayCalcKA exBay (3 / 4)).res = .ok R := by
+    simp [bayCalcKA, exBay, rebuildPanels, rebuild, exPanel, afterRebuild, rebuiltBay, ownFormulas, Piston.fromMach, Piston.effMach,
+      delegate, autoModel, ModelAttr.kind?, calcKA, ModelKind.conical, resolveSize, defaultR, Piston.coefs, machPatched, kaDispatch,
+      copyFirst, copyRest, delegationArgs, baySize, ModelKind.dofs]
+    norm_num
+  obtain ⟨R, hR⟩ := hok
+  obtain ⟨cf, hcf, hform⟩ := bay_calc_kA_eq_piston_form_cpanel exBay (3 / 4) R
+    (⟨1, 1, 3, 0, 1, fun _ _ => 0, 0, 0, 0, 0, 1, 1, 0, 0, 0, fun _ _ _ _ _ _ _ _ => 0⟩ : PCtx ℚ) (fun _ _ _ _ _ _ _ _ => 0)
+    (by intro _ _ _ _ _ _ _ _; rfl) (by norm_num) (by norm_num) (by intro _ _ _; simp) hR rfl 2 3
+    (i := 1) (k := 0) (j := 1) (l := 0) (by norm_num) (by norm_num) (by norm_num) (by norm_num) 2 2
+  have hg : cf.gamma ≠ 0 := by
+    have : cf = ⟨48, 32 / 3, 48 / (5 / 4 * 2) * ((5 / 4) ^ 2 - 2) / ((5 / 4) ^ 2 - 1)⟩ := by
+      have h2 : Piston.coefs exBay.beta exBay.gamma exBay.aeromu exBay.mach (zeroIfNone exBay.rhoAir) (zeroIfNone exBay.V)
+          (zeroIfNone exBay.speedSound) (zeroIfNone exBay.r) (3 / 4) = .ok ⟨48, 32 / 3, 48 / (5 / 4 * 2) * ((5 / 4) ^ 2 - 2) / ((5 / 4) ^ 2 - 1)⟩ := by
+        simp [exBay, Piston.coefs, Piston.fromMach, Piston.effMach, zeroIfNone]
+        norm_num
+      rw [h2] at hcf
+      injection hcf with hcf
+      exact hcf.symm
+    rw [this]; norm_num
+  exact ⟨cf, hg, R, hR, hform hg⟩
+
+/-- **coefficients**: whenever the bay call succeeds, the coefficients of the bay's own copy of the formulas (local variables it never
+uses), the coefficients the skin panel derives from the attributes the bay copied onto it, and `Model/Piston.lean` at the bay's
+`beta, gamma, aeromu, Mach, rho_air, V, speed_sound, r` are ONE triple `cf` — the bay's copy cannot disagree with what is used —:
+the user's `beta` (with `gamma`, `aeromu` defaulting to 0) when `beta` is given, the Mach route `fromMach` (`coefficients_from_mach`)
+otherwise, in which case `Mach ≥ 1` and `rho_air, V, speed_sound` are all numbers, `speed_sound ≠ 0` (else the BAY has raised).  The
+kernels are handed `cf.beta` and, for flow along `x`, `cf.gamma` (`bay_calc_kA_delegates`). -/
+theorem bay_calc_kA_coefficients (B : AeroBay F) (q : F) (R : Result F) (h : (bayCalcKA B q).res = .ok R) :
+    ∃ (cf : Piston.Coefs F) (s : Nat) (p : Panel F),
+      (bayCalcKA B q).ownCoefs = some cf ∧
+      Piston.coefs B.beta B.gamma B.aeromu B.mach (zeroIfNone B.rhoAir) (zeroIfNone B.V) (zeroIfNone B.speedSound) (zeroIfNone B.r) q
+        = .ok cf ∧
+      (let skin := skinOf (machPatchedBay (rebuiltBay B)) s p
+       Piston.coefs skin.beta skin.gamma skin.aeromu skin.mach skin.rhoAir skin.V skin.speedSound (zeroIfNone skin.r) q = .ok cf) ∧
+      (∀ b, B.beta = some b → cf = ⟨b, zeroIfNone B.gamma, zeroIfNone B.aeromu⟩) ∧
+      (B.beta = none → ∃ m0 rho v ainf, B.mach = some m0 ∧ ¬ m0 < 1 ∧ B.rhoAir = some rho ∧ B.V = some v ∧
+        B.speedSound = some ainf ∧ ainf ≠ 0 ∧ Piston.fromMach (some m0) rho v ainf (zeroIfNone B.r) q = .ok cf) := by
+  obtain ⟨B2, own, p, rest, s, k, hr, _, _, _, hown⟩ := bayCalcKA_ok h
+  obtain ⟨hB2, _⟩ := hr.facts
+  obtain ⟨hc1, hc2⟩ := hr.coefs
+  obtain ⟨_, _, hroute⟩ := ownFormulas_ok hr.formulas
+  subst hB2
+  refine ⟨own, s, p, hown, hc1, hc2, ?_, ?_⟩
+  · intro b hb
+    rw [hb] at hc1
+    simp only [Piston.coefs, getD_eq_zeroIfNone] at hc1
+    injection hc1 with hc1
+    exact hc1.symm
+  · intro hb
+    obtain ⟨m0, rho, v, ainf, h1, h2, h3, h4, h5, h6⟩ := hroute hb
+    have h1' : B.mach = some m0 := h1
+    have h3' : B.rhoAir = some rho := h3
+    have h4' : B.V = some v := h4
+    have h5' : B.speedSound = some ainf := h5
+    refine ⟨m0, rho, v, ainf, h1', h2, h3', h4', h5', h6, ?_⟩
+    rw [hb, h1', h3', h4', h5'] at hc1
+    simpa [Piston.coefs, zeroIfNone] using hc1
+
+/-- non-vacuity: on the witness bay the three triples are `(48, 32/3, −48·7/45)` -/
+example : (bayCalcKA exBay (3 / 4)).ownCoefs = some ⟨48, 32 / 3, 48 / (5 / 4 * 2) * ((5 / 4) ^ 2 - 2) / ((5 / 4) ^ 2 - 1)⟩ := by
+  simp [bayCalcKA, exBay, rebuildPanels, rebuild, exPanel, afterRebuild, rebuiltBay, ownFormulas, Piston.fromMach, Piston.effMach,
+    delegate, autoModel, ModelAttr.kind?, calcKA, ModelKind.conical, resolveSize, defaultR, Piston.coefs, machPatched, kaDispatch,
+    copyFirst, copyRest, delegationArgs, baySize, ModelKind.dofs]
+  norm_num
+
+/-- **error branches of `StiffPanelBay.calc_kA`**, in the order the code reaches them.  (1, 2) `a` / `b` missing: the bay's `ValueError`,
+nothing touched.  (3) A panel's own `_rebuild` exception (of `panels[i]`, the panels before it rebuilt) or the bay's `AssertionError`
+`self.model == p.model`: nothing written on the skin.  (4) The exception of a stiffener's `_rebuild` (a parameter of the model).
+(5–8) On the Mach route (`beta is None`) the BAY's own copy of the formulas raises before anything is written on `panels[0]`:
+`Mach is None` is a **TypeError** (`None < 1`) — NOT the skin panel's `ValueError('Mach number cannot be a NoneValue')` —,
+`Mach < 1` the bay's `ValueError`, a missing `rho_air / V / speed_sound` a `TypeError`, `speed_sound == 0.` a `ZeroDivisionError`; in the
+last two cases `Mach == 1` has ALREADY been replaced by `1.0001` on the bay.  (9) A bay without panels: `IndexError`, after the formulas.
+(10) A bay on which `get_size()` was never called has no attribute `size`: `AttributeError` at `p.size = self.size`, AFTER the seven
+attributes `flow, beta, gamma, aeromu, Mach, rho_air, speed_sound` were written on `panels[0]` (and `V`, `r` were not).  (11) The only
+exceptions of `Panel.calc_kA` that can surface through the bay are `NotImplementedError` (conical skin) and `ValueError('Invalid flow
+value')`; the skin panel's own Mach checks and model look-ups are unreachable.  (12) `get_size()` cannot fail with `KeyError`. -/
+theorem bay_calc_kA_errors (B : AeroBay F) (q : F) :
+    (B.a = none → (bayCalcKA B q).res = .error .aMissing ∧ (bayCalcKA B q).post = B ∧ (bayCalcKA B q).writes = []) ∧
+    (B.a ≠ none → B.b = none → (bayCalcKA B q).res = .error .bMissing ∧ (bayCalcKA B q).post = B ∧ (bayCalcKA B q).writes = []) ∧
+    (B.a ≠ none → B.b ≠ none → ∀ e, (rebuildPanels B.panels B.model 0).2.2 = some e →
+      (bayCalcKA B q).res = .error e ∧ (bayCalcKA B q).post = rebuiltBay B ∧ (bayCalcKA B q).writes = [] ∧
+      ∃ i, ∃ hi : i < B.panels.length, (∃ e', e = .panelRebuild i e' ∧ (rebuild B.panels[i]).2 = some e') ∨ e = .modelMismatch i) ∧
+    (B.a ≠ none → B.b ≠ none → (rebuildPanels B.panels B.model 0).2.2 = none →
+      (∀ x, B.stiffRebuildErr = some x →
+        (bayCalcKA B q).res = .error (.stiffRebuild x) ∧ (bayCalcKA B q).post = rebuiltBay B ∧ (bayCalcKA B q).writes = []) ∧
+      (B.stiffRebuildErr = none →
+        (B.beta = none → B.mach = none →
+          (bayCalcKA B q).res = .error .machNoneCompare ∧ BayErr.machNoneCompare.pyType = "TypeError" ∧
+          (bayCalcKA B q).post = rebuiltBay B ∧ (bayCalcKA B q).writes = []) ∧
+        (B.beta = none → ∀ m0, B.mach = some m0 → m0 < 1 →
+          (bayCalcKA B q).res = .error .machBelowOne ∧ (bayCalcKA B q).post = rebuiltBay B ∧ (bayCalcKA B q).writes = []) ∧
+        (B.beta = none → ∀ m0, B.mach = some m0 → ¬ m0 < 1 → (B.rhoAir = none ∨ B.V = none ∨ B.speedSound = none) →
+          (bayCalcKA B q).res = .error .noneArith ∧ (bayCalcKA B q).post = machPatchedBay (rebuiltBay B) ∧
+          (bayCalcKA B q).writes = []) ∧
+        (B.beta = none → ∀ m0, B.mach = some m0 → ¬ m0 < 1 → B.rhoAir ≠ none → B.V ≠ none → B.speedSound = some 0 →
+          (bayCalcKA B q).res = .error .zeroDivision ∧ (bayCalcKA B q).post = machPatchedBay (rebuiltBay B) ∧
+          (bayCalcKA B q).writes = []) ∧
+        (FormulasOk B →
+          (B.panels = [] → (bayCalcKA B q).res = .error .noPanels ∧ (bayCalcKA B q).writes = []) ∧
+          (B.panels ≠ [] → B.sizeAttr = none →
+            (bayCalcKA B q).res = .error .noSizeAttr ∧ (bayCalcKA B q).writes = writesFirst (machPatchedBay (rebuiltBay B)) ∧
+            (bayCalcKA B q).writes.length = 7 ∧
+            ∃ p rest, (rebuildPanels B.panels B.model 0).1 = p :: rest ∧
+              (bayCalcKA B q).post.panels = copyFirst (machPatchedBay (rebuiltBay B)) p :: rest)))) ∧
+    (∀ e, (bayCalcKA B q).res = .error (.skin e) →
+      (e = .conical ∧ ∃ p0 t, B.panels = p0 :: t ∧ (rebuild p0).1.model = .kind .kpanel) ∨ (e = .flowInvalid ∧ B.flow = .other)) ∧
+    (bayCalcKA B q).res ≠ .error .noModel := by
+  refine ⟨?_, ?_, ?_, ?_, ?_, ?_⟩
+  · intro ha
+    unfold bayCalcKA
+    simp only [ha]
+    refine ⟨?_, ?_, ?_⟩ <;> first | trivial | rfl
+  · intro ha hb
+    obtain ⟨av, ha'⟩ := Option.ne_none_iff_exists'.mp ha
+    unfold bayCalcKA
+    simp only [ha', hb]
+    refine ⟨?_, ?_, ?_⟩ <;> first | trivial | rfl
+  · intro ha hb e he
+    obtain ⟨av, ha'⟩ := Option.ne_none_iff_exists'.mp ha
+    obtain ⟨bv, hb'⟩ := Option.ne_none_iff_exists'.mp hb
+    refine ⟨?_, ?_, ?_, ?_⟩
+    · unfold bayCalcKA; simp only [ha', hb', he]
+    · unfold bayCalcKA; simp only [ha', hb', he]
+    · unfold bayCalcKA; simp only [ha', hb', he]
+    · obtain ⟨d, hd, hor⟩ := rebuildPanels_err B.panels B.model 0 e he
+      simp only [Nat.zero_add] at hor
+      exact ⟨d, hd, hor⟩
+  · intro ha hb hp
+    obtain ⟨av, ha'⟩ := Option.ne_none_iff_exists'.mp ha
+    obtain ⟨bv, hb'⟩ := Option.ne_none_iff_exists'.mp hb
+    refine ⟨?_, ?_⟩
+    · intro x hx
+      have hx' : (rebuiltBay B).stiffRebuildErr = some x := hx
+      unfold bayCalcKA afterRebuild
+      simp only [ha', hb', hp, hx']
+      refine ⟨?_, ?_, ?_⟩ <;> first | trivial | rfl
+    · intro hs
+      rw [bayCalcKA_after q ha hb hp hs]
+      refine ⟨?_, ?_, ?_, ?_, ?_⟩
+      · intro hbeta hm
+        rw [ownFormulas_machNone (rebuiltBay B) q hbeta hm]
+        exact ⟨rfl, rfl, rfl, rfl⟩
+      · intro hbeta m0 hm hlt
+        rw [ownFormulas_machBelowOne (rebuiltBay B) q hbeta hm hlt]
+        exact ⟨rfl, rfl, rfl⟩
+      · intro hbeta m0 hm hlt hnone
+        rw [ownFormulas_noneArith (rebuiltBay B) q hbeta hm hlt hnone]
+        exact ⟨rfl, rfl, rfl⟩
+      · intro hbeta m0 hm hlt hr hv hss
+        rw [ownFormulas_zeroDivision (rebuiltBay B) q hbeta hm hlt hr hv hss]
+        exact ⟨rfl, rfl, rfl⟩
+      · intro hok
+        obtain ⟨own, hown⟩ := ownFormulas_of_ok (rebuiltBay B) q hok
+        rw [hown]
+        simp only
+        have hpan : (machPatchedBay (rebuiltBay B)).panels = (rebuildPanels B.panels B.model 0).1 :=
+          (machPatchedBay_fields (rebuiltBay B)).2.2.2.2.2.2.2.2.2.2.2.2.2.2.1
+        have hsz : (machPatchedBay (rebuiltBay B)).sizeAttr = B.sizeAttr :=
+          (machPatchedBay_fields (rebuiltBay B)).2.2.2.2.2.2.2.2.2.2.2.2.2.1
+        refine ⟨?_, ?_⟩
+        · intro hnil
+          have : (machPatchedBay (rebuiltBay B)).panels = [] := by rw [hpan, hnil]; simp [rebuildPanels]
+          rw [delegate_noPanels _ own q this]
+          exact ⟨rfl, rfl⟩
+        · intro hne hsize
+          have hlen := rebuildPanels_length B.panels B.model 0
+          cases hl : (rebuildPanels B.panels B.model 0).1 with
+          | nil =>
+            rw [hl] at hlen
+            exact absurd (List.length_eq_zero_iff.mp hlen.symm) hne
+          | cons p rest =>
+            rw [delegate_noSize _ own q (hpan.trans hl) (hsz.trans hsize)]
+            exact ⟨rfl, rfl, rfl, p, rest, rfl, rfl⟩
+  · intro e he
+    rcases bayCalcKA_cases B q with ⟨e0, he0, hne⟩ | ⟨B2, own, p, rest, s, k, hr, hres, _, _, _⟩
+    · rw [he0] at he
+      injection he with he
+      exact absurd he (hne e)
+    · rw [hres] at he
+      obtain ⟨hB2, ⟨p0, t, hp0, hp⟩, hpm, _, _, _, _, _, _, _, hfl, _⟩ := hr.facts
+      obtain ⟨_, hc2⟩ := hr.coefs
+      have hskm : (skinOf B2 s p).model = .kind k := hpm
+      have hskf : (skinOf B2 s p).flow = B.flow := hfl
+      cases hcon : k.conical with
+      | true =>
+        have hk : k = .kpanel := by cases k <;> simp [ModelKind.conical] at hcon ⊢
+        have : (calcKA (skinOf B2 s p) (delegationArgs (baySize k B2)) q).res = .error .conical := by
+          unfold calcKA; simp [hskm, hcon]
+        rw [this] at he
+        simp only [Except.mapError] at he
+        injection he with he
+        injection he with he
+        left
+        exact ⟨he.symm, p0, t, hp0, by rw [← hp, hpm, hk]⟩
+      | false =>
+        obtain ⟨hd1, hd2⟩ := calcKA_eq_dispatch (A := delegationArgs (baySize k B2)) hskm hcon hc2
+        rw [hd1] at he
+        unfold kaDispatch at he
+        rw [hd2, hskf] at he
+        cases hf : B.flow with
+        | other =>
+          simp only [hf, Except.mapError] at he
+          injection he with he
+          injection he with he
+          right
+          exact ⟨he.symm, rfl⟩
+        | x => simp only [hf] at he; split at he <;> simp [Except.mapError] at he
+        | y => simp [hf, Except.mapError] at he
+  · intro he
+    rcases bayCalcKA_cases B q with ⟨e0, he0, hne⟩ | ⟨B2, own, p, rest, s, k, hr, hres, _, _, _⟩
+    · -- the bay's own branches: `noModel` needs a bay with a panel but no model, which `_rebuild` excludes
+      rw [he0] at he
+      injection he with he
+      subst he
+      by_cases ha : B.a = none
+      · have : (bayCalcKA B q).res = .error .aMissing := by unfold bayCalcKA; simp only [ha]
+        rw [this] at he0; cases he0
+      by_cases hb : B.b = none
+      · obtain ⟨av, ha'⟩ := Option.ne_none_iff_exists'.mp ha
+        have : (bayCalcKA B q).res = .error .bMissing := by unfold bayCalcKA; simp only [ha', hb]
+        rw [this] at he0; cases he0
+      obtain ⟨av, ha'⟩ := Option.ne_none_iff_exists'.mp ha
+      obtain ⟨bv, hb'⟩ := Option.ne_none_iff_exists'.mp hb
+      cases hp : (rebuildPanels B.panels B.model 0).2.2 with
+      | some e =>
+        have : (bayCalcKA B q).res = .error e := by unfold bayCalcKA; simp only [ha', hb', hp]
+        rw [this] at he0
+        injection he0 with he0
+        obtain ⟨d, _, hor⟩ := rebuildPanels_err B.panels B.model 0 e hp
+        rcases hor with ⟨e', h1, _⟩ | h1 <;> rw [h1] at he0 <;> cases he0
+      | none =>
+        cases hs : B.stiffRebuildErr with
+        | some x =>
+          have hx' : (rebuiltBay B).stiffRebuildErr = some x := hs
+          have : (bayCalcKA B q).res = .error (.stiffRebuild x) := by
+            unfold bayCalcKA afterRebuild; simp only [ha', hb', hp, hx']
+          rw [this] at he0; cases he0
+        | none =>
+          rw [bayCalcKA_after q ha hb hp hs] at he0
+          rcases hf : ownFormulas (rebuiltBay B) q with ⟨B2, e | own⟩
+          · rw [hf] at he0
+            simp only at he0
+            injection he0 with he0
+            subst he0
+            unfold ownFormulas at hf
+            revert hf
+            (repeat' split) <;> intro hf <;> simp at hf
+          · rw [hf] at he0
+            simp only at he0
+            obtain ⟨h2, _, _⟩ := ownFormulas_ok hf
+            unfold delegate at he0
+            cases hpl : B2.panels with
+            | nil => simp [hpl] at he0
+            | cons p rest =>
+              simp only [hpl] at he0
+              cases hsz : B2.sizeAttr with
+              | none => simp [hsz] at he0
+              | some s =>
+                simp only [hsz] at he0
+                have hpan : (rebuildPanels B.panels B.model 0).1 = p :: rest := by
+                  rw [← hpl, h2]; exact (machPatchedBay_fields (rebuiltBay B)).2.2.2.2.2.2.2.2.2.2.2.2.2.2.1.symm
+                have hne : B.panels ≠ [] := by
+                  intro hc; rw [hc] at hpan; simp [rebuildPanels] at hpan
+                obtain ⟨k', hk1, _, _⟩ := rebuildPanels_ok_model B.panels B.model 0 hne hp
+                have hm2 : B2.model = .kind k' := by
+                  rw [h2, (machPatchedBay_fields (rebuiltBay B)).2.2.2.2.2.1]; exact hk1
+                simp only [hm2, ModelAttr.kind?] at he0
+                split at he0 <;> simp at he0
+    · rw [hres] at he
+      cases hc : (calcKA (skinOf B2 s p) (delegationArgs (baySize k B2)) q).res <;> rw [hc] at he <;> simp [Except.mapError] at he
+
+/-- non-vacuity of the error branches on the witness bay: `Mach = None` gives the bay's `TypeError` with nothing written on the skin; a
+bay on which `get_size()` was never called gives `AttributeError` after seven attributes were written -/
+example : (bayCalcKA { exBay with mach := none } (3 / 4)).res = .error .machNoneCompare ∧
+    (bayCalcKA { exBay with mach := none } (3 / 4)).writes = [] ∧
+    (bayCalcKA { exBay with sizeAttr := none } (3 / 4)).res = .error .noSizeAttr ∧
+    ((bayCalcKA { exBay with sizeAttr := none } (3 / 4)).writes.map fun w => match w with
+      | .flow _ => "flow" | .beta _ => "beta" | .gamma _ => "gamma" | .aeromu _ => "aeromu" | .mach _ => "Mach" | .rhoAir _ => "rho_air"
+      | .speedSound _ => "speed_sound" | .size _ => "size" | .V _ => "V" | .r _ => "r")
+      = ["flow", "beta", "gamma", "aeromu", "Mach", "rho_air", "speed_sound"] := by
+  refine ⟨?_, ?_, ?_, ?_⟩ <;>
+  · simp [bayCalcKA, exBay, rebuildPanels, rebuild, exPanel, afterRebuild, rebuiltBay, ownFormulas, Piston.fromMach, Piston.effMach,
+      delegate, autoModel, writesFirst]
+    try norm_num
+
+/-- **the aerodynamic matrix of the flutter helper** `tstiff2d_1stiff_flutter` (`kA = 0; for p in skin: kA += p.calc_kA(size=size,
+row0=p.row_start, col0=p.col_start, silent=True, finalize=False); kA = csr_matrix(make_skew_symmetric(kA))`): whenever it is built,
+there is at least one skin panel, exactly ONE kernel call per skin panel in the order of the list, and the call of panel `p` — flat or
+cylindrical model — is its un-finalised flow kernel `fkAx(beta, gamma, panel, size, row_start, col_start)` or `fkAy(beta, panel, size,
+row_start, col_start)` with the coefficients `cf` of `Model/Piston.lean` at THAT PANEL's flow data (`r = None` read as `0.`); and,
+whatever the kernel calls return (`res p` for call `p`), the helper's matrix is the SKEW completion of their sum: on and above the
+diagonal the sum of the kernel outputs, below it MINUS the mirrored sum — so it is skew-symmetric off the diagonal AS A WHOLE,
+including whatever the curvature coefficient `gamma` contributed to the `fkAx` outputs (see `flutter_assembly_kA_curvature_counterexample`). -/
+theorem flutter_assembly_kA (size : Nat) (skin : List (SkinPanel F)) (q : F) (R : Result F)
+    (h : (flutterKA size skin q).res = .ok R) :
+    skin ≠ [] ∧ R.calls.length = skin.length ∧
+    (∀ p (hp : p < skin.length) (hc : p < R.calls.length), ∃ k cf,
+      skin[p].P.model = .kind k ∧ k ≠ .kpanel ∧ R.calls[p].num = false ∧
+      Piston.coefs skin[p].P.beta skin[p].P.gamma skin[p].P.aeromu skin[p].P.mach skin[p].P.rhoAir skin[p].P.V skin[p].P.speedSound
+        (zeroIfNone skin[p].P.r) q = .ok cf ∧
+      (skin[p].P.flow = .x ∨ skin[p].P.flow = .y) ∧
+      (skin[p].P.flow = .x → R.calls[p].name = .fkAx ∧
+        R.calls[p].args = [.q cf.beta, .q cf.gamma, .panel, .nat size, .nat skin[p].rowStart, .nat skin[p].colStart]) ∧
+      (skin[p].P.flow = .y → R.calls[p].name = .fkAy ∧
+        R.calls[p].args = [.q cf.beta, .panel, .nat size, .nat skin[p].rowStart, .nat skin[p].colStart])) ∧
+    (∀ (res : Nat → Coo F) (i j : Nat),
+      toFun (R.comb.eval res) i j =
+        if i ≤ j then ((List.range skin.length).map fun p => toFun (res p) i j).sum
+        else -((List.range skin.length).map fun p => toFun (res p) j i).sum) ∧
+    (∀ (res : Nat → Coo F) (i j : Nat), i ≠ j → toFun (R.comb.eval res) i j = -toFun (R.comb.eval res) j i) := by
+  unfold flutterKA at h
+  obtain ⟨gs, hlen, hcalls, hall, c, hadd, hcomb⟩ := flutterLoop_ok size q skin [] [] none 0 R h
+  simp only [List.nil_append, List.length_nil] at hcalls hadd
+  have heval : ∀ (res : Nat → Coo F) (i j : Nat),
+      toFun (R.comb.eval res) i j =
+        if i ≤ j then ((List.range skin.length).map fun p => toFun (res p) i j).sum
+        else -((List.range skin.length).map fun p => toFun (res p) j i).sum := by
+    intro res i j
+    rw [hcomb]
+    simp only [Comb.eval]
+    rw [skewComplete_eq, toFun_makeSkewSymmetric, addCalls_eval res i j _ _ _ c hadd, addCalls_eval res j i _ _ _ c hadd]
+    simp only [Nat.zero_add, zero_add]
+  refine ⟨?_, by rw [hcalls, hlen], ?_, heval, ?_⟩
+  · rintro rfl
+    simp [addCalls] at hadd
+  · intro p hp hc
+    have hg : p < gs.length := by rw [hlen]; exact hp
+    obtain ⟨Rp, hres, hRc, _⟩ := hall p hp hg
+    obtain ⟨k, cf, hk, hcon, hcf, hfl, hcl, hy, hx⟩ := calcKA_ok hres
+    have hplace : placeSpec k skin[p].P (skinArgs size skin[p]) = [.nat size, .nat skin[p].rowStart, .nat skin[p].colStart] := rfl
+    have hgp : R.calls[p] = gs[p] := by simp only [hcalls]
+    rw [hgp]
+    have hsig : sig Rp = [(gs[p].name, gs[p].args)] := by unfold sig; rw [hRc]; rfl
+    refine ⟨k, cf, hk, ?_, ?_, hcf, ?_, ?_, ?_⟩
+    · rintro rfl; simp [ModelKind.conical] at hcon
+    · exact (hcl gs[p] (by rw [hRc]; simp)).1
+    · cases hf : skin[p].P.flow <;> simp_all
+    · intro hf
+      obtain ⟨h1, _⟩ := (hx hf).2 (by simp [skinArgs])
+      rw [hsig, hplace] at h1
+      simp only [List.cons.injEq, Prod.mk.injEq, and_true] at h1
+      exact ⟨h1.1, h1.2⟩
+    · intro hf
+      obtain ⟨h1, _⟩ := hy hf
+      rw [hsig, hplace] at h1
+      simp only [List.cons.injEq, Prod.mk.injEq, and_true] at h1
+      exact ⟨h1.1, h1.2⟩
+  · intro res i j hij
+    rw [heval, heval]
+    by_cases h1 : i ≤ j
+    · have h2 : ¬ j ≤ i := by omega
+      simp [h1, h2]
+    · have h2 : j ≤ i := by omega
+      simp [h1, h2]
+
+/-- **the blocks of different skin panels do not overlap**: let the skin panels be the first panels of an assembly whose panels have the
+sizes `sizes` (for `PanelAssembly.__init__`: `3·m·n` each, `row_start = col_start =` the running sum `startOf sizes p`,
+`Model/Assembly.init`, C13 `ranges_tile`), and let the kernel call of skin panel `p` write only inside that panel's own rows and columns
+`[startOf sizes p, startOf sizes p + sizes[p])` (the regenerated loop nests do: `Spec/BayAeroKernels.loopNest_support`).  Then an entry
+of the helper's matrix whose row lies in the range of skin panel `p` and whose column in the range of skin panel `p'` is zero for
+`p ≠ p'`, and for `p = p'` it is the skew completion of THAT panel's kernel output alone. -/
+theorem flutter_assembly_kA_blocks (size : Nat) (skin : List (SkinPanel F)) (q : F) (R : Result F)
+    (h : (flutterKA size skin q).res = .ok R) (sizes : List Nat) (hn : skin.length ≤ sizes.length) (res : Nat → Coo F)
+    (hsup : ∀ p (hp : p < skin.length), ∀ e ∈ res p,
+      (startOf sizes p ≤ e.1 ∧ e.1 < startOf sizes p + sizes[p]) ∧ (startOf sizes p ≤ e.2.1 ∧ e.2.1 < startOf sizes p + sizes[p]))
+    (p p' : Nat) (hp : p < skin.length) (hp' : p' < skin.length) (i j : Nat)
+    (hi : startOf sizes p ≤ i ∧ i < startOf sizes p + sizes[p]) (hj : startOf sizes p' ≤ j ∧ j < startOf sizes p' + sizes[p']) :
+    toFun (R.comb.eval res) i j =
+      if p = p' then (if i ≤ j then toFun (res p) i j else -toFun (res p) j i) else 0 := by
+  obtain ⟨_, _, _, heval, _⟩ := flutter_assembly_kA size skin q R h
+  have key : ∀ x y, (startOf sizes p ≤ x ∧ x < startOf sizes p + sizes[p]) → (startOf sizes p' ≤ y ∧ y < startOf sizes p' + sizes[p']) →
+      (((List.range skin.length).map fun t => toFun (res t) x y).sum = if p = p' then toFun (res p) x y else 0) ∧
+      (((List.range skin.length).map fun t => toFun (res t) y x).sum = if p = p' then toFun (res p) y x else 0) := by
+    intro x y hx hy
+    have zero : ∀ t (ht : t < skin.length), (t ≠ p ∨ t ≠ p') → toFun (res t) x y = 0 ∧ toFun (res t) y x = 0 := by
+      intro t ht hne
+      have hout : ¬ (startOf sizes t ≤ x ∧ x < startOf sizes t + sizes[t]) ∨ ¬ (startOf sizes t ≤ y ∧ y < startOf sizes t + sizes[t]) := by
+        rcases hne with hne | hne
+        · left; intro hc; exact hne (range_unique sizes t p x (by omega) (by omega) hc hx)
+        · right; intro hc; exact hne (range_unique sizes t p' y (by omega) (by omega) hc hy)
+      exact ⟨toFun_eq_zero_outside (hsup t ht) x y hout, toFun_eq_zero_outside (hsup t ht) y x hout.symm⟩
+    by_cases hpp : p = p'
+    · subst hpp
+      simp only [if_true]
+      constructor
+      · exact Compmech.PanelLoop.sum_map_single _ List.nodup_range p (List.mem_range.mpr hp) _
+          (fun t ht hne => (zero t (List.mem_range.mp ht) (Or.inl hne)).1)
+      · exact Compmech.PanelLoop.sum_map_single _ List.nodup_range p (List.mem_range.mpr hp) _
+          (fun t ht hne => (zero t (List.mem_range.mp ht) (Or.inl hne)).2)
+    · simp only [hpp, if_false]
+      constructor
+      · apply List.sum_eq_zero
+        intro v hv
+        obtain ⟨t, ht, rfl⟩ := List.mem_map.mp hv
+        have : t ≠ p ∨ t ≠ p' := by by_cases h1 : t = p; right; rw [h1]; exact hpp; left; exact h1
+        exact (zero t (List.mem_range.mp ht) this).1
+      · apply List.sum_eq_zero
+        intro v hv
+        obtain ⟨t, ht, rfl⟩ := List.mem_map.mp hv
+        have : t ≠ p ∨ t ≠ p' := by by_cases h1 : t = p; right; rw [h1]; exact hpp; left; exact h1
+        exact (zero t (List.mem_range.mp ht) this).2
+  rw [heval]
+  obtain ⟨k1, k2⟩ := key i j hi hj
+  rw [k1, k2]
+  by_cases hpp : p = p' <;> by_cases hij : i ≤ j <;> simp [hpp, hij]
+
+/-- **observation (the helper returns eigenvalues only; not a listed finding): for `r ≠ None` the helper skews the SYMMETRIC curvature
+term.**  On the concrete instance `exSkin` (one cylindrical skin panel, Mach route, `gamma = 32/3`) with the kernel `exKern`: the helper
+makes the single call `fkAx(48, 32/3, panel, 18, 0, 0)` and its matrix has `−(48 + 32/3)` at `(1, 0)`, whereas `Panel.calc_kA()` of the
+SAME panel with the SAME kernel (`finalize=True`: flow term skew, curvature term symmetric — what `kAx_matrix_cpanel` proves to be the
+piston-theory form) has `−48 + 32/3` there: the two differ by `2·gamma·(curvature integral)`. -/
+theorem flutter_assembly_kA_curvature_counterexample :
+    ∃ R R', (flutterKA 18 [exSkin] (3 / 4)).res = .ok R ∧
+      sig R = [(.fkAx, [.q 48, .q (32 / 3), .panel, .nat 18, .nat 0, .nat 0])] ∧ R.comb = .skew (.call 0) ∧
+      (calcKA exSkin.P { size := some 18, row0 := some 0, col0 := some 0, finalize := true } (3 / 4)).res = .ok R' ∧
+      toFun (R.eval exKern) 0 1 = 48 + 32 / 3 ∧ toFun (R'.eval exKern) 0 1 = 48 + 32 / 3 ∧
+      toFun (R.eval exKern) 1 0 = -(48 + 32 / 3) ∧ toFun (R'.eval exKern) 1 0 = -48 + 32 / 3 ∧
+      toFun (R.eval exKern) 1 0 ≠ toFun (R'.eval exKern) 1 0 := by
+  have e1 : (flutterKA 18 [exSkin] (3 / 4)).res =
+      .ok { calls := [mkCall { exSkin.P with r := some 3 } false .fkAx [.q 48, .q (32 / 3), .panel, .nat 18, .nat 0, .nat 0]],
+            comb := .skew (.call 0), store := .kA } := by
+    simp [flutterKA, flutterLoop, exSkin, exPanel, calcKA, ModelKind.conical, resolveSize, defaultR, Piston.coefs, Piston.fromMach,
+      Piston.effMach, machPatched, kaDispatch, skinArgs, mkCall, placement]
+    norm_num
+    rfl
+  have e2 : (calcKA exSkin.P { size := some 18, row0 := some 0, col0 := some 0, finalize := true } (3 / 4)).res =
+      .ok { calls := [mkCall { exSkin.P with r := some 3 } false .fkAx [.q 48, .q 0, .panel, .nat 18, .nat 0, .nat 0],
+                      mkCall { exSkin.P with r := some 3 } false .fkAx [.q 0, .q (32 / 3), .panel, .nat 18, .nat 0, .nat 0]],
+            comb := .add (.skew (.call 0)) (.fin (.call 1)), store := .kA } := by
+    simp [exSkin, exPanel, calcKA, ModelKind.conical, resolveSize, defaultR, Piston.coefs, Piston.fromMach,
+      Piston.effMach, machPatched, kaDispatch, mkCall, placement]
+    norm_num
+  refine ⟨_, _, e1, rfl, rfl, e2, ?_, ?_, ?_, ?_, ?_⟩ <;>
+    simp [Result.eval, Comb.eval, mkCall, exKern, skewComplete, finalize, makeSymmetric, toFun] <;> norm_num
+
+/-- non-vacuity of `flutter_assembly_kA` and `flutter_assembly_kA_blocks`: two copies of the witness skin panel placed at `(0, 0)` and
+`(18, 18)` in an assembly of 36 amplitudes: the helper's matrix is built with two kernel calls -/
+example : ∃ R, (flutterKA 36 [exSkin, ⟨exSkin.P, 18, 18⟩] (3 / 4)).res = .ok R ∧ R.calls.length = 2 ∧
+    [exSkin, ⟨exSkin.P, 18, 18⟩].length ≤ [18, 18].length ∧ startOf [18, 18] 1 = 18 := by
+  have e1 : ∃ R, (flutterKA 36 [exSkin, ⟨exSkin.P, 18, 18⟩] (3 / 4)).res = .ok R := by
+    simp [flutterKA, flutterLoop, exSkin, exPanel, calcKA, ModelKind.conical, resolveSize, defaultR, Piston.coefs, Piston.fromMach,
+      Piston.effMach, machPatched, kaDispatch, skinArgs, mkCall, placement]
+    norm_num
+  obtain ⟨R, hR⟩ := e1
+  exact ⟨R, hR, (flutter_assembly_kA 36 _ (3 / 4) R hR).2.1, by simp, by simp [startOf]⟩
+
+end bay
 
 end Compmech.Panel.C19
